@@ -1,0 +1,11 @@
+//go:build verif
+
+package host
+
+// Contracts for the deductive verifier in /verif (govc). Comment-only; compiled only with -tags verif.
+
+//@ import hostv2 modules/core/24-host/v2
+//@ import channelv2types modules/core/04-channel/v2/types
+
+//@ spec func u64(x int) bool = 0 <= x && x < 18446744073709551616
+//@ spec func cleanID(x string) bool = !contains(x, "/") && !contains(x, str(1)) && !contains(x, str(2)) && !contains(x, str(3))
